@@ -1,4 +1,4 @@
-//! Fixed-slot stand-in for the `lru` crate (API subset used by `dht`), for capacities <= 4.
+//! Fixed-slot stand-in for the `lru` crate (the API subset used by `dht` plus the neighbouring calls a refactor would plausibly reach for: pop, pop_entry, peek_mut, peek_lru, push, clear, get_or_insert), for capacities <= 4.
 //! No heap buffer and no indexing: every access is a direct field access, so a model checker
 //! never sees a symbolic array index.  Slots are kept most-recently-used first.
 use std::borrow::Borrow;
@@ -89,6 +89,52 @@ impl<K: Eq, V> LruCache<K, V> {
         if n == 0 { None } else { self.take_slot(n - 1) }
     }
     pub fn iter(&self) -> Iter<'_, K, V> { Iter { c: self, i: 0 } }
+    /// close the gap left by an emptied slot `i` (keeps the most-recent-first order)
+    fn compact(&mut self, i: usize) {
+        if i == 0 { self.s0 = self.s1.take(); }
+        if i <= 1 { self.s1 = self.s2.take(); }
+        if i <= 2 { self.s2 = self.s3.take(); }
+    }
+    pub fn pop_entry<Q>(&mut self, k: &Q) -> Option<(K, V)> where K: Borrow<Q>, Q: Eq + ?Sized {
+        let i = self.find(k);
+        if i == 4 { return None; }
+        let e = self.take_slot(i);
+        self.compact(i);
+        e
+    }
+    pub fn pop<Q>(&mut self, k: &Q) -> Option<V> where K: Borrow<Q>, Q: Eq + ?Sized {
+        self.pop_entry(k).map(|e| e.1)
+    }
+    pub fn peek_mut<'a, Q>(&'a mut self, k: &Q) -> Option<&'a mut V> where K: Borrow<Q>, Q: Eq + ?Sized {
+        let i = self.find(k);
+        let s = if i == 0 { &mut self.s0 } else if i == 1 { &mut self.s1 } else if i == 2 { &mut self.s2 } else if i == 3 { &mut self.s3 } else { return None };
+        s.as_mut().map(|e| &mut e.1)
+    }
+    pub fn peek_lru(&self) -> Option<(&K, &V)> {
+        let n = self.len();
+        let s = if n == 0 { return None } else if n == 1 { &self.s0 } else if n == 2 { &self.s1 } else if n == 3 { &self.s2 } else { &self.s3 };
+        s.as_ref().map(|e| (&e.0, &e.1))
+    }
+    /// like `put`, but returns the replaced entry of the same key or the evicted least recently used entry
+    pub fn push(&mut self, k: K, v: V) -> Option<(K, V)> {
+        let i = self.find(&k);
+        if i < 4 {
+            let old = self.take_slot(i);
+            self.set_slot(i, (k, v));
+            self.promote(i);
+            return old;
+        }
+        let n = self.len();
+        let (slot, old) = if n >= self.effective_cap() { (n - 1, self.take_slot(n - 1)) } else { (n, None) };
+        self.set_slot(slot, (k, v));
+        self.promote(slot);
+        old
+    }
+    pub fn clear(&mut self) { self.s0 = None; self.s1 = None; self.s2 = None; self.s3 = None; }
+    pub fn get_or_insert<F: FnOnce() -> V>(&mut self, k: K, f: F) -> &V where K: Clone {
+        if self.find(&k) == 4 { self.put(k, f()); } else { let i = self.find(&k); self.promote(i); }
+        self.s0.as_ref().map(|e| &e.1).unwrap()
+    }
 }
 
 pub struct Iter<'a, K, V> { c: &'a LruCache<K, V>, i: usize }
